@@ -77,7 +77,7 @@ impl Prop for C02 {
         ]
     }
     fn cases(&self, tier: Tier) -> u32 {
-        tier.pick(30_000, 600_000)
+        tier.pick(120_000, 600_000)
     }
     fn strategy(&self, tier: Tier) -> BoxedStrategy<Case> {
         let maxlen = tier.pick(40, 400);
